@@ -347,8 +347,8 @@ impl Handler {
 //@@ rewrite: additional_frame.into_iter() ==> opt_into_iter(additional_frame)
 //@@ format_desugar
 //@@ rewrite: ro.suffix.as_deref() ==> opt_string_as_str(&ro.suffix)
-//@@ closure_spec: .and_then( @0 ==> -> (o: Option<&str>) ensures match o { Some(x) => $1.suffix is Some && x@ == $1.suffix.unwrap()@, None => $1.suffix is None }
-//@@ closure_spec: .and_then( @1 ==> -> (o: Option<TTL>) ensures o == $1.ttl
+//@@ closure_spec: .and_then( ~ suffix ==> -> (o: Option<&str>) ensures match o { Some(x) => $1.suffix is Some && x@ == $1.suffix.unwrap()@, None => $1.suffix is None }
+//@@ closure_spec: .and_then( ~ ttl ==> -> (o: Option<TTL>) ensures o == $1.ttl
 //@@ after_all: fn process_frame(&mut self, ==> Tracked(hx): Tracked<&mut Hx>,
 //@@ for_name: for mut output_frame in
 //@@ closure_spec: .get_or_insert_with( ==> -> (v: serde_json::Value) ensures serde_json::is_object(v)
@@ -464,16 +464,15 @@ impl Handler {
 //@@ strip: await
 //@@ json_desugar
 //@@ format_desugar
-//@@ closure_spec: .and_then( @0 ==> -> (o: Option<&serde_json::Value>) ensures o == (if serde_json::is_object(*$1) && serde_json::obj(*$1).contains_key("handler_id"@) { Some(&serde_json::obj(*$1)["handler_id"@]) } else { None })
-//@@ closure_spec: .and_then( @1 ==> -> (o: Option<&str>) ensures match o { Some(s) => serde_json::strv(*$1) == Some(s@), None => serde_json::strv(*$1) is None }
+//@@ closure_spec: .and_then( ~ get ==> -> (o: Option<&serde_json::Value>) ensures o == (if serde_json::is_object(*$1) && serde_json::obj(*$1).contains_key("handler_id"@) { Some(&serde_json::obj(*$1)["handler_id"@]) } else { None })
+//@@ closure_spec: .and_then( ~ as_str ==> -> (o: Option<&str>) ensures match o { Some(s) => serde_json::strv(*$1) == Some(s@), None => serde_json::strv(*$1) is None }
 //@@ closure_spec: .filter( ==> -> (b: bool) ensures b == ((*$1)@ == id_str(id_u128(self.id)))
 //@@ loop_spec: while let Some(frame) = recver.recv()
-    invariant_except_break
+    invariant
         // no frame consumed so far unregistered the handler: it is still active
         forall|i: int| 0 <= i < consumed(old(hx).incoming, hx.incoming).len() ==> !stops(#[trigger] old(hx).incoming[i], self.topic@, self.id), //# handler.serve.stops_when_unregistered
         // ... and it has neither failed nor announced anything itself
         direct_appends(old(hx), hx) == 0 && hx.failures == old(hx).failures, //# handler.serve.one_unregistered_per_stop
-    invariant
         hx.appended.len() - old(hx).appended.len() >= hx.proc_out - old(hx).proc_out >= 0, hx.failures >= old(hx).failures,
         self.id == old(self).id, self.context_id == old(self).context_id, self.topic == old(self).topic,
         hx.incoming.len() <= old(hx).incoming.len(),
@@ -482,9 +481,6 @@ impl Handler {
         old(hx).processed.len() <= hx.processed.len(),
         hx.processed =~= old(hx).processed + wanted_of(consumed(old(hx).incoming, hx.incoming), self.topic@, self.id), //# handler.serve.exactly_the_wanted_frames_in_order
         forall|i: int| 0 <= i < hx.processed.len() - old(hx).processed.len() ==> !own_output(#[trigger] hx.processed[old(hx).processed.len() + i], self.id), //# handler.serve.never_own_output
-    ensures
-        forall|i: int| 0 <= i < consumed(old(hx).incoming, hx.incoming).len() - 1 ==> !stops(#[trigger] old(hx).incoming[i], self.topic@, self.id), //# handler.serve.stops_when_unregistered
-        stop_announced(old(hx), hx, self.topic@, self.context_id, self.id), //# handler.serve.one_unregistered_per_stop
     decreases hx.incoming.len(),
 //@@ loop_top: while let Some(frame) = recver.recv()
     broadcast use axiom_display_id, axiom_display_str, serde_json::axiom_str_value;
@@ -499,6 +495,7 @@ impl Handler {
     }
     let ghost proc0 = hx.processed;
 //@@ header
+#[verifier::loop_isolation(false)]
 fn serve_loop(&mut self, store: &Store, recver: &mut FrameReceiver, Tracked(hx): Tracked<&mut Hx>)
     ensures
         final(hx).incoming.len() <= old(hx).incoming.len(),
@@ -736,8 +733,8 @@ spec fn recv_frame(f: Frame, v: Value, call: Frame, c: &Command) -> bool {
 //@@ for_desugar: for value in
 //@@ rewrite: opts.suffix.as_deref() ==> opt_string_as_str(&opts.suffix)
 //@@ rewrite: Ok(()) as Result<(), Box<dyn std::error::Error + Send + Sync>> ==> ! Ok::<(), Error>(())
-//@@ closure_spec: .and_then( @0 ==> -> (o: Option<&str>) ensures match o { Some(x) => $1.suffix is Some && x@ == $1.suffix.unwrap()@, None => $1.suffix is None }
-//@@ closure_spec: .and_then( @1 ==> -> (o: Option<TTL>) ensures o == $1.ttl
+//@@ closure_spec: .and_then( ~ suffix ==> -> (o: Option<&str>) ensures match o { Some(x) => $1.suffix is Some && x@ == $1.suffix.unwrap()@, None => $1.suffix is None }
+//@@ closure_spec: .and_then( ~ ttl ==> -> (o: Option<TTL>) ensures o == $1.ttl
 //@@ loop_spec: for value in
     invariant
         vals == pipe_all(&vx_it), 0 <= k <= vals.len(), pipe_rest(&vx_it) =~= vals.subrange(k, vals.len() as int), call_values(frame) == Some(vals),
@@ -745,7 +742,6 @@ spec fn recv_frame(f: Frame, v: Value, call: Frame, c: &Command) -> bool {
         hx.appended.len() == old(hx).appended.len() + k,
         forall|i: int| 0 <= i < old(hx).appended.len() ==> #[trigger] hx.appended[i] == old(hx).appended[i],
         forall|i: int| 0 <= i < k ==> recv_frame(#[trigger] hx.appended[old(hx).appended.len() + i], vals[i], frame, &command), //# command.call.one_result_frame_per_value_in_order
-    ensures k == vals.len(),
     decreases pipe_rest(&vx_it).len(),
 //@@ loop_top: for value in
     broadcast use axiom_display_id, axiom_display_str, axiom_display_json, serde_json::axiom_str_value, axiom_pat_str;
@@ -761,6 +757,7 @@ spec fn recv_frame(f: Frame, v: Value, call: Frame, c: &Command) -> bool {
     let ghost vals = pipe_values(&pipeline_data);
     let ghost mut k: int = 0;
 //@@ header
+#[verifier::loop_isolation(false)]
 fn command_results(engine: nu::Engine, common_options: CommonOptions, command: Command, frame: Frame, store: Store, Tracked(hx): Tracked<&mut Hx>) -> (r: Result<(), Error>)
     requires has_suffix(frame.topic@, ".call"@),
     ensures
